@@ -118,11 +118,15 @@ def run(ctx):
                             return "per-peer field %s" % x[2]
         return None
     seen_keys = {}
+    guard_sites = []
     for (ob, obi, s) in lifted:
+        # the function in which the leadership evidence for this renewal is (or should be) established
+        for (gb, gbi, ok, wit) in lift_to_guard(F, ob, obi, lambda c: ev_single_voter(F, c) or ev_quorum(F, c)):
+            guard_sites.append((gb, gbi, ok, wit, s))
+    for (ob, obi, anyev, wit, s) in guard_sites:
         conds = edge_conditions(ob)
         sv, _w, _ = guarded_by(ob, obi, lambda c: ev_single_voter(F, c), conds)
         qc, _w, _ = guarded_by(ob, obi, lambda c: ev_quorum(F, c), conds)
-        anyev, wit, _ = guarded_by(ob, obi, lambda c: ev_single_voter(F, c) or ev_quorum(F, c), conds)
         key = "%s#renew" % fkey(F.root_of[ob.id])
         n = seen_keys.get(key, 0)
         seen_keys[key] = n + 1
@@ -151,6 +155,7 @@ def run(ctx):
             # C12-e freshness of the quorum evidence
             if qc:
                 fresh = None
+                fields = []
                 for eid, c in conds.items():
                     if not ev_quorum(F, c):
                         continue
@@ -162,13 +167,13 @@ def run(ctx):
                             ws = set(r for (r, _b, _bi) in field_mutation_sites(F, "LeaderState", x[2]))
                             if any(sends_append(w) for w in ws):
                                 fresh = "field %s is reset on the send path" % x[2]
-                    fields = sorted(x[2] for x in cs.sources if x[0] == "field" and strip_generics(x[1]).endswith("LeaderState"))
-                    ctx.check("C12-e", key + "#quorum-evidence-is-per-round", bool(fresh), "quorum evidence is round/time scoped (%s)" % fresh,
-                              "the predicate guarding the renewal (calculate_majority_matched_index(..).is_some()) reads only LeaderState.%s, none of which is reset "
-                              "when a heartbeat round is sent and no clock: once a majority has matched commit_index it stays true, so the ACK of ONE follower "
-                              "renews the lease. History (5 voters L,A,B,C,D, all matched at commit): partition {L,A}|{B,C,D}; A keeps acknowledging L's heartbeats; "
-                              "every ACK finds the median match index >= commit_index and renews; B,C,D elect a leader and accept writes; L serves stale lease "
-                              "(and Path-A linearizable) reads for as long as the partition lasts" % fields, loc(ob, obi))
+                    fields = sorted(set(fields) | set(x[2] for x in cs.sources if x[0] == "field" and strip_generics(x[1]).endswith("LeaderState")))
+                ctx.check("C12-e", key + "#quorum-evidence-is-per-round", bool(fresh), "quorum evidence is round/time scoped (%s)" % fresh,
+                          "the predicate guarding the renewal (calculate_majority_matched_index(..).is_some()) reads only LeaderState.%s, none of which is reset "
+                          "when a heartbeat round is sent and no clock: once a majority has matched commit_index it stays true, so the ACK of ONE follower "
+                          "renews the lease. History (5 voters L,A,B,C,D, all matched at commit): partition {L,A}|{B,C,D}; A keeps acknowledging L's heartbeats; "
+                          "every ACK finds the median match index >= commit_index and renews; B,C,D elect a leader and accept writes; L serves stale lease "
+                          "(and Path-A linearizable) reads for as long as the partition lasts" % fields, loc(ob, obi))
     # update_lease_timestamp-like helpers: the deadline handed to renew must be base + duration of its own parameters (no widening constant)
     for (root, bid, bi, t) in renews:
         b = F.bodies[bid]
